@@ -3,9 +3,24 @@ pid=sys.argv[1]
 for l in open('/verif/properties.jsonl'):
     p=json.loads(l)
     if p['id']==pid: break
-wt=f"/tmp/mut/wt-{pid}"
-out=f"/tmp/mut/out-{pid}"
-print(f"""You are helping test a verification effort for the Go key-value store dgraph-io/badger (v4). A scratch git worktree of the repository is at {wt} (your own copy; work ONLY there and in {out}; never touch /repo or /verif, and do not read anything under /verif).
+rnd=sys.argv[2] if len(sys.argv)>2 else ""
+wt=f"/tmp/mut/wt-{pid}{rnd}"
+out=f"/tmp/mut/out-{pid}{rnd}"
+avoid=""
+if rnd:
+    import glob,re
+    seen=[]
+    for f in sorted(glob.glob(f"/verif/seeded/{pid}-*/patch.diff")):
+        cur=None
+        for line in open(f):
+            if line.startswith("+++ b/"): cur=line[6:].strip()
+            m=re.match(r"@@.*@@ (.*)",line)
+            if m and cur:
+                t=f"{cur}: {m.group(1).strip()[:90]}"
+                if t not in seen: seen.append(t)
+    if seen:
+        avoid="\n  - Changes in the following places have been studied already; pick OTHER functions / mechanisms: "+"; ".join(seen)+"."
+text=(f"""You are helping test a verification effort for the Go key-value store dgraph-io/badger (v4). A scratch git worktree of the repository is at {wt} (your own copy; work ONLY there and in {out}; never touch /repo or /verif, and do not read anything under /verif).
 
 Here is a semantic property of badger that should always hold:
 
@@ -27,5 +42,6 @@ Ground rules:
   - You MUST verify yourself: (a) `go build ./...` succeeds with the change; (b) the demo fails with the change and passes without it (run it 3 times each way to be sure it is deterministic); (c) the existing suite passes with the change: run `cd {wt} && GOMAXPROCS=4 go test -mod=mod -p 1 -vet=off -count=1 -timeout 40m ./...` (takes 7-12 minutes; the test TestProtosRegenerate in package pb always fails in this sandbox, ignore it; remove your demo file before running the suite). Other agents share this machine, so if some other test fails, re-run just that test once or twice to rule out load-related flakiness before giving up on a change; if an existing test genuinely fails, pick a different change.
   - Keep only one change applied at a time (save it with `git diff > patch.diff`, undo with `git checkout -- .`, re-apply with `git apply patch.diff`; NEVER use `git stash` - the stash is shared between worktrees of other agents). Leave the worktree clean (no changes applied) when you finish.
   - Do not modify existing test files. Do not weaken or delete functionality wholesale (e.g. do not make a function a no-op if any ordinary use would notice immediately).
-  - Your final message should be a short summary: for each change, one sentence on what it is and whether (a),(b),(c) were all confirmed. If you could only produce one verified change, say so.
+@@AVOID@@  - Your final message should be a short summary: for each change, one sentence on what it is and whether (a),(b),(c) were all confirmed. If you could only produce one verified change, say so.
 """)
+print(text.replace("@@AVOID@@", (avoid.strip("\n")+"\n") if avoid else ""))
